@@ -15,6 +15,8 @@ from engine import load
 from engine import sx
 
 LEVEL = "other"
+# canonical names (engine/facts.py): parse(state, skipper) -- parameters by position, never by spelling
+STATE, SKIPPER = "r_a0", "r_a1"
 
 INLINE = ("fcppt::optional::", "fcppt::either::", "fcppt::variant::", "fcppt::cond", "fcppt::monad::", "fcppt::const_",
           "fcppt::detail::const_", "fcppt::parse::make_success", "fcppt::parse::skipper::run", "fcppt::parse::skipper::make_",
@@ -215,7 +217,7 @@ def check(cx, rid, fn, pvs, pred, text):
 
 
 def uses_root_skipper(t):
-    return t[3] == "_skipper"
+    return t[3] == SKIPPER
 
 
 # ------------------------------------------------------------------------------------------------
@@ -624,7 +626,7 @@ def rule_compositions(cx):
             if "parser_" not in sx.show(ev[0][1][0]):
                 bad = "the inner parser is not built from this->parser_"
             a = [sx.show(x) for x in ev[1][1]]
-            if not (a[0].startswith("#1:") and a[1] == "_state" and a[2] == "_skipper"):
+            if not (a[0].startswith("#1:") and a[1] == STATE and a[2] == SKIPPER):
                 bad = "the composed parser is not called with the caller's state and skipper: %s" % a
             k, v = pv.outcome()
             if k != "passthrough" or v[1] != 2:
@@ -678,7 +680,7 @@ class Ref:
 
     def _sk(self, txt):
         # with skipper::epsilon as the root skipper, `_skipper` and a fresh epsilon{} are the same skipper
-        return EPS if "epsilon" in txt or (self.root_eps and txt == "_skipper") else txt
+        return EPS if "epsilon" in txt or (self.root_eps and txt == SKIPPER) else txt
 
     def step(self, kind, what, pred, sk):
         if self.i >= len(self.evs):
@@ -851,7 +853,7 @@ def rule_derived(cx):
             for pv in pvs:
                 ref = Ref(pv, root_eps)
                 try:
-                    r = ref.run(grammar, "_skipper")
+                    r = ref.run(grammar, SKIPPER)
                 except RefTrunc:
                     nsteps = max(nsteps, ref.i)
                     continue
@@ -905,7 +907,7 @@ def rule_entry(cx):
             continue
 
         def ent3(pv):
-            ok = pv.dec.get("has_success(_result)")
+            ok = pv.dec.get("has_success(r_a1)")
             if ok is None:
                 return "the parser's result is not examined"
             if ok is False:
@@ -922,7 +924,7 @@ def rule_entry(cx):
                 return "success does not depend on the remaining input being empty"
             if pv.succeeded() != empties[0]:
                 return "success=%s although rest-empty=%s" % (pv.succeeded(), empties[0])
-            if pv.succeeded() and "success_payload(_result)" not in sx.show(pv.outcome()[1]):
+            if pv.succeeded() and "success_payload(r_a1)" not in sx.show(pv.outcome()[1]):
                 return "the value is not the parser's result"
         check(cx, "ENT-3", fn, pvs, ent3, "string entry points succeed iff the parser succeeded and the whole input was consumed")
     # phrase_parse: ENT-1
@@ -961,8 +963,8 @@ def rule_err(cx):
         bad = None
         for p in ps:
             dec = {sx.show(a): b for a, b in p.decisions}
-            l = dec.get("is_fatal(_left)")
-            r = dec.get("is_fatal(_right)")
+            l = dec.get("is_fatal(r_a0)")
+            r = dec.get("is_fatal(r_a1)")
             v = p.outcome[1] if p.outcome[0] == "return" else None
             fatal = isinstance(v, tuple) and v[0] == "new" and len(v[3]) == 2
             want = bool(l) or bool(r)
